@@ -368,13 +368,13 @@ def main(tier, seed):
         for r in pmap(work, specs, chunksize=4 if name == "programs" else 1):
             rep.merge_worker(name, r)
         rep.section(name, None, specs=len(specs))
-    ex = Explorer()
+    ex = Explorer(max_paths=3000, budget_s=90)
     ex.run(make_body({"prog": [["add", "R0", "R0", "R1"]]}, falsify=True))
     rep.witness("add with a falsified register oracle", any(c.label == "registers" for c in ex.cexs))
 
     def one():
-        Explorer().run(make_body({"prog": [["array", "R2", {"addr": 0}], ["store", "R0", {"entry": [0, "R1"]}]], "arrays": {0: 1}}))
-        Explorer().run(make_body({"prog": [["qalloc", "R1"], ["subm", "R1", "R1", "R0", "R2"]], "second": [["ret_reg", "R0"], ["ret_arr", {"addr": 0}]],
+        Explorer(max_paths=4, budget_s=30).run(make_body({"prog": [["array", "R2", {"addr": 0}], ["store", "R0", {"entry": [0, "R1"]}]], "arrays": {0: 1}}))
+        Explorer(max_paths=4, budget_s=30).run(make_body({"prog": [["qalloc", "R1"], ["subm", "R1", "R1", "R0", "R2"]], "second": [["ret_reg", "R0"], ["ret_arr", {"addr": 0}]],
                                   "arrays": {0: 1}, "qubits": True}))
     rep.functions_encoded |= trace_functions(one)
     return rep.finish(replay)
